@@ -22,7 +22,14 @@ pub(crate) use me_code::*;
 pub fn get_message(squitter: &str) -> Option<Vec<u32>> {
     clean_squitter(squitter)
         .filter(|message| matches!(message.len(), 14 | 28))
+        .filter(|message| length_matches_format(message))
         .filter(|message| reminder(message) == 0)
+}
+
+/// A frame is 56 bits long for DF 0-15 and 112 bits long for DF 16-31 (first bit of DF set).
+fn length_matches_format(message: &[u32]) -> bool {
+    let long_format = message[0] & 0b1000 != 0;
+    long_format == (message.len() == 28)
 }
 
 pub(crate) fn get_hex_message(message: &[u32]) -> String {
